@@ -10,6 +10,7 @@ import Driver.CCache
 import Driver.Asn1
 import Driver.ApReq
 import Driver.Spnego
+import Driver.KdcRep
 
 open Driver
 
@@ -30,6 +31,7 @@ def dispatch (line : String) : String :=
       else if op.startsWith "asn1." then Asn1.handle op args
       else if op.startsWith "ap." then ApReq.handle op args
       else if op.startsWith "sp." then Spnego.handle op args
+      else if op.startsWith "kr." then KdcRep.handle op args
       else none
     match r with
     | some s => s
